@@ -600,7 +600,13 @@ def suite_malformed(ctx: Ctx) -> SuiteResult:
 
 def search(ctx: Ctx, disagreements, broken):
     import random
+    import syscheck
     out: list[Violation] = []
+    if any(isinstance(d.case, dict) and "scenario" in d.case for d in disagreements):
+        out = syscheck.make_search("C16", ["C16"])(ctx, [d for d in disagreements
+                                                         if isinstance(d.case, dict) and "scenario" in d.case], broken)
+        if out:
+            return out
     for d in disagreements:
         if isinstance(d.case, dict) and "kind" in d.case:
             vs, _, _ = run_case(d.case, None)
@@ -619,6 +625,9 @@ def search(ctx: Ctx, disagreements, broken):
 def replay(ctx: Ctx, payload: dict) -> SuiteResult:
     res = SuiteResult("replay")
     case = payload.get("case") or payload.get("first_disagreement")
+    if isinstance(case, dict) and "scenario" in case:
+        import syscheck
+        return syscheck.make_replay("C16")(ctx, payload)
     vs, d, tr = run_case(case, ctx.driver)
     res.evaluations = 1
     res.violations = vs
@@ -630,6 +639,16 @@ def replay(ctx: Ctx, payload: dict) -> SuiteResult:
 
 if __name__ == "__main__":
     setup_repo_path()
+    import logging
+    logging.disable(logging.CRITICAL)
+    import syscheck
+    sys_suites = syscheck.make_suites("C16", [("C16", 120, 3000)],
+        "timed runs of the real launch() with FixedIntervalInteraction.with_sleep_adjustor (intervals 2-4 loop "
+        "periods x time scales 1/2..4 x offsets x step durations) and scripted pause / resume / save commands "
+        "between and during steps, under seeded random schedules; C16 monitor on a clock of its own (virtual "
+        "real time x scale, frozen between the control thread's time.pause() and time.resume()): no step starts "
+        "while the clock is frozen, consecutive step starts at least interval - offset apart up to the loop "
+        "overhead; traces also replayed through Pamiq.Proto / Pamiq.Tick; non-trivial = contains a pause or save")
     sys.exit(run_check(
         "C16", lean_modules=["Pamiq.Props.C16"],
         required_theorems=["Pamiq.Adjust.reset_gap", "Pamiq.Adjust.reset_gap_ge",
@@ -637,7 +656,7 @@ if __name__ == "__main__":
                            "Pamiq.Adjust.starts_paced", "Pamiq.Adjust.pause_free",
                            "Pamiq.Adjust.pause_free_step", "Pamiq.Adjust.sleep_spec",
                            "Pamiq.Adjust.pause_in_sleep_shortens"],
-        suites=[suite_corpus, suite_exhaustive, suite_random, suite_malformed],
+        suites=[suite_corpus, suite_exhaustive, suite_random, suite_malformed, *sys_suites],
         search=search, replay=replay,
         assumptions=["IEEE-754 rounding is not modelled: all values dyadic, scales powers of two, so "
                      "every float operation of interval_adjustors.py / time.py is exact; equality",
